@@ -13,6 +13,9 @@ class Transport(object):
         self.last = None
 
     def write(self, frame):
+        # the host link may fail at any point (device unplugged): a write can raise IOError too
+        if nondet_bool():
+            raise IOError(errno.EIO, "input/output error")
         self.written.append(bytes(frame))
 
     def read(self, timeout=0):
